@@ -799,9 +799,9 @@ fn search(a: &Args) {
 
     // 1. ladders of every kind at fixed rungs, each in its own child (2 MiB stack, wall-clock budget)
     // every recursive ladder overflowed 2 MiB between 1200 and 5100 levels before the guard: 10000 levels decide
-    let rec_rungs: &[usize] = if deep { &[150, 1000, 10000, 100000, 400000] } else { &[150, 10000] };
-    let chain_rungs_all: &[usize] = if deep { &[2000, 10000, 30000, 200000] } else { &[2000] };
-    let chain_rungs_probe: &[usize] = if deep { &[2000, 10000, 30000, 200000] } else { &[2000, 30000] };
+    let rec_rungs: &[usize] = if deep { &[150, 1000, 10000, 100000] } else { &[150, 10000] };
+    let chain_rungs_all: &[usize] = if deep { &[2000, 10000, 30000, 100000] } else { &[2000] };
+    let chain_rungs_probe: &[usize] = if deep { &[2000, 10000, 30000, 100000] } else { &[2000, 30000] };
     for (kind, rec) in KINDS {
         let mut stop = false;
         let probe = matches!(*kind, "plus" | "suffix_dot" | "doc_union");
